@@ -23,7 +23,7 @@ import (
 var scratch string
 
 func doc(i int) *bluge.Document {
-	return bluge.NewDocument("d"+strconv.Itoa(i)).
+	return bluge.NewDocument("d" + strconv.Itoa(i)).
 		AddField(bluge.NewKeywordField("u", strconv.Itoa(i)).StoreValue().Sortable()).
 		AddField(bluge.NewKeywordField("k", "1").StoreValue()).
 		AddField(bluge.NewTextField("body", "w"+strconv.Itoa(i%7)+" common"))
